@@ -52,7 +52,7 @@ MCStep ==
   \/ \E rs \in Batches(NextId, MaxDirect) :
         MaxDirect > 0 /\ drid = 0 /\ NextId + Len(rs) <= NRec + 1 /\ DirectBegin(rs) /\ nid' = nid + Len(rs)
   \/ /\ \/ \E saw \in BOOLEAN : WTop(saw, stopped)
-        \/ WTake \/ WIdle \/ WAppend \/ WRefuse \/ WReset \/ WExit
+        \/ WTake \/ WIdle(TRUE) \/ WAppend \/ WRefuse \/ WReset \/ WExit
         \/ wpc = "dec" /\ \E fl \in Fl : WDecide(fl)
         \/ \E k \in Keeps : WSend(k) \/ DSend(k)
         \/ DirectEnd \/ DirectAbort
